@@ -30,7 +30,17 @@ type c12Case struct {
 	// greeting refused for its missing argument; 3 a HELO and a transaction
 	// begun under it. Every greeting starts afresh (RFC 5321 4.1.4).
 	Pre int `json:",omitempty"`
+	// Name: what the client calls itself in the judged greeting: 0 a
+	// one-label name, 1 a domain, 2 an IPv4 address literal, 3 an IPv6
+	// address literal (RFC 5321 4.1.3: a client without a name uses its address)
+	Name int `json:",omitempty"`
+	// Unrelated: settings that have no bearing on the capabilities: bit 0 a
+	// (long) ReadTimeout and WriteTimeout, bit 1 a Debug writer, bit 2 a
+	// small line length limit (every probe fits)
+	Unrelated int `json:",omitempty"`
 }
+
+var c12Names = []string{"cli", "mail.example.org", "[192.0.2.1]", "[IPv6:2001:db8::7]"}
 
 func c12Expected(c c12Case) []string {
 	active := c.TLS == "implicit" || c.TLS == "upgraded" || c.TLS == "wrapped"
@@ -88,6 +98,13 @@ func c12Run(c c12Case) Verdict {
 	tlsLabel := c.TLS
 	cfg := harness.Config{LMTP: c.LMTP, UTF8: c.UTF8, RequireTLS: c.RequireTLS, BinaryMIME: c.BinaryMIME, DSN: c.DSN, RRVS: c.RRVS,
 		MaxMessageBytes: c.Size, MaxRecipients: c.RcptMax, AllowInsecureAuth: c.InsecureAuth}
+	if c.Unrelated&1 != 0 {
+		cfg.ReadTimeoutMs, cfg.WriteTimeoutMs = 60000, 60000
+	}
+	cfg.Debug = c.Unrelated&2 != 0
+	if c.Unrelated&4 != 0 {
+		cfg.MaxLineLength = 200
+	}
 	switch c.TLS {
 	case "starttls", "upgraded", "failed":
 		cfg.TLS = "starttls"
@@ -184,7 +201,7 @@ func c12Run(c c12Case) Verdict {
 		}
 	}
 	// 1. the capability list
-	out, st := w.Exchange([]byte(g + " cli\r\n"))
+	out, st := w.Exchange([]byte(g + " " + c12Names[c.Name%len(c12Names)] + "\r\n"))
 	rs, perr := harness.ParseReplies(out)
 	if st != harness.QIdle || perr != nil || len(rs) != 1 || rs[0].Code != 250 {
 		return fail(failf("ehlo", "greeting not answered with one 250 reply: %v %v %s", codes(rs), perr, st))
@@ -402,7 +419,7 @@ func c12All() []c12Case {
 						for _, ab := range []bool{false, true} {
 							for _, lmtp := range []bool{false, true} {
 								out = append(out, c12Case{UTF8: bits&1 != 0, RequireTLS: bits&2 != 0, BinaryMIME: bits&4 != 0, DSN: bits&8 != 0, RRVS: bits&16 != 0,
-									Size: size, RcptMax: rm, TLS: tls, InsecureAuth: ins, AuthBackend: ab, LMTP: lmtp, Spell: len(out) % 3, Pre: (len(out) / 3) % 4})
+									Size: size, RcptMax: rm, TLS: tls, InsecureAuth: ins, AuthBackend: ab, LMTP: lmtp, Spell: len(out) % 3, Pre: (len(out) / 3) % 4, Name: (len(out) / 5) % 4, Unrelated: (len(out) / 7) % 8})
 							}
 						}
 					}
@@ -427,7 +444,7 @@ func init() {
 
 func TestC12(t *testing.T) {
 	registerAll()
-	st.Rule = "cases = all 7680 configurations (5 extension flags x size limit none/1000/8 GiB x recipient limit x TLS none/available/active/active through a caller-wrapped listener/available after a failed upgrade x AllowInsecureAuth x auth-capable backend x SMTP/LMTP), each: exact capability set vs a table, HELO single-line, one probe per extension (verbs and parameter keywords in upper, lower or alternating case), lines mixing parameters of enabled and disabled extensions, a DATA transaction after them, AUTH and STARTTLS probes, the judged greeting being the first on its connection or following a HELO / a refused greeting / a HELO with an open transaction, capability list again after an upgrade; thorough adds random probe orders and TLS activated through STARTTLS; non-trivial = configuration with at least one optional capability; distinct = hash of the configuration"
+	st.Rule = "cases = all 7680 configurations (5 extension flags x size limit none/1000/8 GiB x recipient limit x TLS none/available/active/active through a caller-wrapped listener/available after a failed upgrade x AllowInsecureAuth x auth-capable backend x SMTP/LMTP), each: exact capability set vs a table, HELO single-line, one probe per extension (verbs and parameter keywords in upper, lower or alternating case), lines mixing parameters of enabled and disabled extensions, a DATA transaction after them, AUTH and STARTTLS probes, under unrelated server settings (timeouts, Debug writer, line limit), the client naming itself by a domain or an IPv4 / IPv6 address literal, the judged greeting being the first on its connection or following a HELO / a refused greeting / a HELO with an open transaction, capability list again after an upgrade; thorough adds random probe orders and TLS activated through STARTTLS; non-trivial = configuration with at least one optional capability; distinct = hash of the configuration"
 	if !regress(t, "C12") {
 		return
 	}
@@ -456,6 +473,8 @@ func TestC12(t *testing.T) {
 		c.Order = rapid.Permutation(seqInts(22)).Draw(rt, "order")
 		c.Spell = rapid.IntRange(0, 2).Draw(rt, "spell")
 		c.Pre = rapid.IntRange(0, 3).Draw(rt, "pre")
+		c.Name = rapid.IntRange(0, 3).Draw(rt, "name")
+		c.Unrelated = rapid.IntRange(0, 7).Draw(rt, "unrelated")
 		return c
 	})
 }
